@@ -155,6 +155,9 @@ pub fn run(prop: &str, a: &Args, rep: &mut Report) {
     // dropped by 8 threads at once
     if !par_long.is_empty() {
         crate::mon_par::exec_par(rep, prop, &par_long, engine.unwrap_or(Engine::Interp));
+        if engine == Some(Engine::Jit) {
+            crate::mon_par::exec_par_full(rep, prop, &par_long, Engine::Jit, 1, 40);
+        }
     }
 }
 
